@@ -128,6 +128,17 @@ def main(argv=None):
             undecided.append({"obligation": rep["target"], "why": "contract-target-missing"})
             continue
         if rep["error"]:
+            if getattr(pack, "REPLAY_UNKNOWN", False):
+                # the engine/pack model broke on this (changed) function: only a natively reproduced failing input is a violation
+                short = rep["target"].split("/")[-1]
+                pseudo = {"id": f"{prop}/{short}/out-of-subset", "kind": "out-of-subset", "status": "unknown", "vcs": 0, "seconds": 0.0,
+                          "backends": {}, "witness": None, "reason": "ENGINE-ERROR " + rep["error"][:300], "function": rep["target"], "loc": ""}
+                rp = do_replay(prop, pseudo, repo)
+                if rp.get("reproduced"):
+                    pseudo["status"] = "refuted"
+                    pseudo["reason"] += "; failing input found natively"
+                    obligations.append(pseudo)
+                    continue
             engine_errors.append({"function": rep["target"], "error": rep["error"]})
             continue
         if rep["out_of_subset"]:
@@ -189,7 +200,7 @@ def main(argv=None):
         lock = lock_all[prop]
 
     missing = [oid for oid in lock if oid not in by_id]
-    missing_fn_prefixes = [u["obligation"] for u in undecided]
+    missing_fn_prefixes = [u["obligation"] for u in undecided] + [o.get("function", "") for o in obligations if o.get("kind") == "out-of-subset"]
     really_missing = []
     for oid in missing:
         if "/call-pre#" in oid:
